@@ -164,7 +164,30 @@ func announcementOvertakenByClose(e *core.Env) {
 	ms.Net.Remove(ann)
 	ann.NoDelay = true
 	ms.Net.DeliverRaw(ann) // read by the link reader: in the hands of A's workers from here on
-	if tp.Chance(1, 2) {
+	reconnected := false
+	if tp.Chance(1, 3) {
+		// ... the link goes down at both ends and the two routers are connected again (same or
+		// other labels) before A's workers get to the announcement of the old link: when it is
+		// handled, a live link to its sender exists - another one
+		oldA, oldB := lA.SwitchLabel(), lA.Other.SwitchLabel()
+		lA.Close(nil)
+		lA.Other.Close(nil)
+		o := simnet.ConnectOpts{LabelAtA: oldA, LabelAtB: oldB, LatencyMs: lA.Latency()}
+		if tp.Chance(1, 2) {
+			o.LabelAtA, o.LabelAtB = oldA+1+m.SwitchLabel(tp.Intn(20)), oldB+1+m.SwitchLabel(tp.Intn(20))
+			for A.Peering.GetLinkByLabel(o.LabelAtA) != nil {
+				o.LabelAtA++
+			}
+			for B.Peering.GetLinkByLabel(o.LabelAtB) != nil {
+				o.LabelAtB++
+			}
+		}
+		if _, _, err := ms.Net.Connect(A, B, o); err != nil {
+			e.Infra("reconnect: %v", err)
+		}
+		reconnected = true
+		e.Probe("announcement_of_replaced_link_handled_after_reconnect")
+	} else if tp.Chance(1, 2) {
 		lA.Close(nil) // A closes locally ...
 	} else {
 		lA.Other.Close(nil) // ... or B does and its EOF arrives
@@ -180,6 +203,17 @@ func announcementOvertakenByClose(e *core.Env) {
 	ms.Net.DrainFIFO(tp, 5000)
 	ms.CheckPanics("worker-panic")
 	e.Fault("link_close_overtakes_announcement")
+	if e.Trace {
+		for _, nd := range []*node.Node{A, B} {
+			for _, en := range nd.Router.Table().VerifEntries() {
+				e.Logf("  %s route dst=%s nh=%s src=%v hops=%d", nd.Name, en.DstIP, en.NextHop, en.Source, en.Path.TotalHops)
+			}
+			e.Logf("  %s links=%d pending=%d t=%s", nd.Name, len(nd.Peering.GetLinks()), ms.Net.PendingCount(), time.Now().Format("15:04:05.000000"))
+		}
+	}
+	if reconnected && (A.Peering.GetLink(B.IP) == nil || B.Peering.GetLink(A.IP) == nil) {
+		e.Infra("reconnected link is not registered")
+	}
 	for _, nd := range []*node.Node{A, B} {
 		live := map[netip.Addr]bool{}
 		for _, l := range nd.Peering.GetLinks() {
@@ -205,6 +239,11 @@ func announcementOvertakenByClose(e *core.Env) {
 		}
 	}
 	e.Probe("announcement_read_before_close_handled_after")
+	// The three routers of this phase are stopped here: left running, their periodic workers
+	// would share the processor, the lock hook and the pinned random stream with the routers of
+	// the main phase.
+	ms.Net.Shutdown()
+	simnet.Wait()
 }
 
 func run(e *core.Env) {
